@@ -87,15 +87,36 @@ def norm_index(i, n):
     return z3.If(i < 0, z3.If(i + n < 0, z3.IntVal(0), i + n), i)
 
 
+def _norm_with_oracle(i, n):
+    i = z3.simplify(i)
+    if z3.is_int_value(i) and i.as_long() >= 0:
+        return i
+    if ORACLE[0] is not None:
+        if _entails(i >= 0):
+            return i
+        if _entails(i < 0):
+            j = z3.simplify(i + n)
+            if _entails(j >= 0):
+                return j
+            if _entails(j < 0):
+                return z3.IntVal(0)
+    return norm_index(i, n)
+
+
 def py_slice(seq, lo, hi):
     """Python seq[lo:hi] on a z3 sequence; lo/hi are z3 Int terms or None."""
-    n = z3.Length(seq)
-    lo_n = z3.IntVal(0) if lo is None else norm_index(lo, n)
+    n = smart_len(seq)
+    lo_n = z3.IntVal(0) if lo is None else _norm_with_oracle(lo, n)
     if hi is None:
         hi_n = n
     else:
-        hi_n = norm_index(hi, n)
-    return z3.simplify(smart_subseq(seq, z3.simplify(lo_n), z3.simplify(hi_n - lo_n)))
+        hi_n = _norm_with_oracle(hi, n)
+        if ORACLE[0] is not None and not z3.is_int_value(hi_n) and _entails(hi_n > n):
+            hi_n = n
+    length = z3.simplify(hi_n - lo_n)
+    if ORACLE[0] is not None and not z3.is_int_value(length) and _entails(length < 0):
+        return z3.Empty(seq.sort())
+    return smart_subseq(seq, z3.simplify(lo_n), length)
 
 
 def be_int(seq_term, start, size):
@@ -247,3 +268,70 @@ def smart_subseq(seq, start, length):
                     if rest_parts else mk_concat(taken, seq.sort())
         return z3.SubSeq(mk_concat(parts, seq.sort()), off, length)
     return z3.SubSeq(seq, start, length)
+
+
+# -- rewriting through SubSeq using the entailment oracle ------------------------------------------------------------
+
+def _subseq_parts(t):
+    if z3.is_app(t) and t.decl().kind() == z3.Z3_OP_SEQ_EXTRACT:
+        return t.arg(0), t.arg(1), t.arg(2)
+    return None
+
+
+def _entails(c):
+    o = ORACLE[0]
+    c = z3.simplify(c)
+    if z3.is_true(c):
+        return True
+    if z3.is_false(c):
+        return False
+    return bool(o and o(c))
+
+
+def _within(s, a, l):
+    """SubSeq(s, a, l) is an exact window: 0 <= a, 0 <= l, a + l <= len(s)"""
+    return _entails(z3.And(a >= 0, l >= 0, a + l <= z3.Length(s)))
+
+
+_base_nth = smart_nth
+_base_subseq = smart_subseq
+
+
+NTH_HOOK = [None]   # optional callable(seq, pos) -> term naming the element (memoised per path)
+
+
+def _named_nth(seq, pos):
+    h = NTH_HOOK[0]
+    if h is not None:
+        return h(seq, z3.simplify(pos))
+    return seq[pos]
+
+
+def smart_nth(seq, pos):  # noqa: F811
+    if z3.is_const(seq) and seq.decl().kind() == z3.Z3_OP_UNINTERPRETED:
+        return _named_nth(seq, pos)
+    sp = _subseq_parts(seq)
+    if sp is not None:
+        s, a, l = sp
+        pos_s = z3.simplify(pos)
+        if _entails(z3.And(pos_s >= 0, pos_s < l)) and _within(s, a, l):
+            return smart_nth(s, z3.simplify(a + pos_s))
+    return _base_nth(seq, pos)
+
+
+def smart_subseq(seq, start, length):  # noqa: F811
+    sp = _subseq_parts(seq)
+    if sp is not None:
+        s, a, l = sp
+        if _entails(z3.And(start >= 0, length >= 0, start + length <= l)) and _within(s, a, l):
+            return smart_subseq(s, z3.simplify(a + start), length)
+    return _base_subseq(seq, start, length)
+
+
+def smart_len(seq):
+    sp = _subseq_parts(seq)
+    if sp is not None:
+        s, a, l = sp
+        if _within(s, a, l):
+            return z3.simplify(l)
+    return z3.Length(seq)
